@@ -76,7 +76,7 @@ class LogCapture(logging.Handler):
 class Integ:
     """One pyscript integration instance.  Use: `async with Integ(files, legacy=...) as it:`"""
 
-    def __init__(self, files, legacy=False, config_extra=None, base_dt=BASE_DT, tz=None, autostart=True):
+    def __init__(self, files, legacy=False, config_extra=None, base_dt=BASE_DT, tz=None, autostart=True, initial_states=None):
         self.files = dict(files)  # relative path under pyscript/ -> source
         self.legacy = legacy
         self.config = {"pyscript": {"allow_all_imports": False, "legacy_decorators": bool(legacy)}}
@@ -91,6 +91,7 @@ class Integ:
         self.dir = None
         self.log = LogCapture()
         self.tz = tz
+        self.initial_states = initial_states or {}
 
     # ------------------------------------------------------------------ clock
     def vnow(self):
@@ -151,6 +152,8 @@ class Integ:
             plog = logging.getLogger("custom_components.pyscript")
             plog.addHandler(self.log)
             self._plog = plog
+            for ent, (val, attrs) in self.initial_states.items():
+                self.hass.states.async_set(ent, val, attrs or {})
             ok = await async_setup_component(self.hass, "pyscript", self.config)
             if not ok:
                 raise RuntimeError("pyscript set-up failed")
